@@ -127,12 +127,16 @@ pub open spec fn output_toks(m: &naga::Module, src: Seq<char>, path: Option<Seq<
 // ---- C19: what the formatter path may return ----
 // either the unformatted token string, or - only if the whole input was written, the run exited successfully and printed
 // non-empty valid UTF-8 - exactly what that run printed
-pub open spec fn fmt_post(unformatted: Seq<char>, text: Seq<char>) -> bool {
-    text == unformatted || exists|id: int| #[trigger] run_success(id) && run_written(id, utf8_encode(unformatted))
-        && run_stdout(id).len() > 0 && utf8_decode(run_stdout(id)) == Some(text)
+// the formatted text is still the same program: it lexes, and to the same tokens modulo trailing commas (lib::is_same_program)
+pub open spec fn same_program(text: Seq<char>, toks: Seq<Tok>) -> bool {
+    lexes(text) && canon_text(parse_toks(text)) == canon_text(toks)
+}
+pub open spec fn fmt_post(toks: Seq<Tok>, text: Seq<char>) -> bool {
+    text == tokens_string(toks) || (same_program(text, toks) && exists|id: int| #[trigger] run_success(id) && run_written(id, utf8_encode(tokens_string(toks)))
+        && run_stdout(id).len() > 0 && utf8_decode(run_stdout(id)) == Some(text))
 }
 pub open spec fn printed(toks: Seq<Tok>, rustfmt: bool, text: Seq<char>) -> bool {
-    if rustfmt { fmt_post(tokens_string(toks), text) }
+    if rustfmt { fmt_post(toks, text) }
     else { parse_file_spec(tokens_string(toks)) is Some && text == unparse_spec(parse_file_spec(tokens_string(toks))->0) }
 }
 
